@@ -15,6 +15,9 @@ SCRIPTS = {
     "C": [("enter", 0), ("enter", 1), ("read",), ("exit",), ("read",), ("exit",), ("read",)],
     "D": [("read",), ("arith",), ("neg",), ("read",)],
     "E": [("enter", 0), ("set", 1), ("read",), ("exit",), ("read",), ("arith",)],
+    # negative contents reached through histogram + histogram (a negative operand made legally earlier), in-place add, over-subtraction, setter
+    "F": [("enter", 0), ("addneg",), ("exit",), ("addneg",), ("subover",)],
+    "G": [("set", 0), ("iaddneg",), ("setneg",)],
 }
 
 
@@ -60,6 +63,24 @@ def _task(E, config, h_factory, script, vals, log):
             h = h_factory()
             r = E.attempt(lambda: h * (-1))
             log.append(("neg", "refused" if isinstance(r, Raised) else "accepted"))
+        elif op in ("addneg", "iaddneg", "subover", "setneg"):
+            h = h_factory()
+            negative = h_factory.negative()
+
+            def run():
+                if op == "addneg":
+                    return h + negative
+                if op == "subover":
+                    return h - h_factory.big()
+                if op == "setneg":
+                    h.frequencies = np.asarray([1, -2])
+                    return h
+                g = h
+                g += negative
+                return g
+
+            r = E.attempt(run)
+            log.append((op, "refused" if isinstance(r, Raised) else "accepted"))
         yield
 
 
@@ -89,10 +110,12 @@ class C19Schedules(Harness):
     bounds_doc = "2 tasks (quick) / 3 tasks with scripts of 4..7 steps from {enter(v), exit, exit-by-exception, assignment, read, array arithmetic, negative factor} incl. nesting; the values v, the main context's value and the environment default are symbolic / enumerated; the schedule (which task takes the next step) is a symbolic integer sequence forked over all interleavings"
 
     def instances(self, tier):
-        pairs = [("A", "B"), ("C", "D"), ("E", "A"), ("B", "C")] if tier == "quick" else list(itertools.combinations_with_replacement("ABCDE", 2))
+        pairs = [("A", "B"), ("C", "D"), ("E", "A"), ("B", "C"), ("F", "G")] if tier == "quick" else list(itertools.combinations_with_replacement("ABCDE", 2)) + [("F", "G"), ("F", "B"), ("G", "E"), ("F", "F")]
         for a, b in pairs:
             for kinds in (("copy", "copy"), ("copy", "fresh"), ("fresh", "fresh")):
                 if tier == "quick" and kinds == ("fresh", "fresh") and (a, b) != ("A", "B"):
+                    continue
+                if tier == "quick" and (a, b) == ("F", "G") and kinds != ("copy", "fresh"):
                     continue
                 yield f"sched-{a}{b}-{kinds[0]}-{kinds[1]}", dict(scripts=[a, b], kinds=list(kinds), env="unset")
         if tier != "quick":
@@ -138,6 +161,16 @@ class C19Schedules(Harness):
         try:
             def h_factory():
                 return H1(np.asarray([0.0, 1.0, 2.0]), np.asarray([1, 1]))
+
+            def _negative():
+                # made legally: inside an enabled context of its own (left again before the tasks run)
+                def make():
+                    with config.enable_free_arithmetics(True):
+                        return h_factory() * (-3)
+                return contextvars.Context().run(make)
+
+            h_factory.negative = _negative
+            h_factory.big = lambda: H1(np.asarray([0.0, 1.0, 2.0]), np.asarray([5, 0]))
 
             main = contextvars.Context()
             logs = [[] for _ in p["scripts"]]
@@ -185,5 +218,5 @@ class C19Schedules(Harness):
                     yield f"read[{t}][{k}]", cx.b(got) == ref[k]
                 elif op == "arith":
                     yield f"array_operand[{t}][{k}]", z3.BoolVal(got == "accepted") == ref[k]
-                elif op == "neg":
+                elif op in ("neg", "addneg", "iaddneg", "subover", "setneg"):
                     yield f"negative_content[{t}][{k}]", z3.BoolVal(got == "accepted") == ref[k]
